@@ -51,7 +51,6 @@ var selfMutants = []selfMutant{
 	{Rule: "R-CTORERR", File: "input.go", Old: "				return &Input{\n					buf: nullBuffer,\n					err: err,\n				}", New: "				z := NewInputBytes(b)\n				z.err = err\n				return z", Why: "partial data kept on reader failure"},
 	{Rule: "R-REBASE", File: "buffer/streamlexer.go", Old: "	z.prevStart -= z.start\n", New: "", Why: "prevStart not re-based"},
 	{Rule: "R-STREAMERR", File: "buffer/streamlexer.go", Old: "if z.err == io.EOF && z.pos < len(z.buf) {", New: "if z.err == io.EOF && z.pos <= len(z.buf) {", Why: "EOF hidden at the end"},
-	{Rule: "R-POOLREUSE", File: "buffer/streamlexer.go", Old: "if z.tail == 0 && z.pos >= len(oldBuf) && size <= cap(oldBuf) {", New: "if z.tail == 0 && size <= cap(oldBuf) {", Why: "buffer reused while bytes are unfreed"},
 	{Rule: "R-STREAMBUF", File: "buffer/streamlexer.go", Old: "buf := z.pool.swap(z.buf[:z.start], c)", New: "buf := z.pool.swap(z.buf, c)", Why: "whole buffer retired"},
 	// call graph / globals / errors
 	{Rule: "R-RECURSE", File: "js/parse.go", Old: "	// binding patterns nest recursively, count them as nested expressions\n	p.exprLevel++\n	if NestedExprLimit < p.exprLevel {\n		p.failMessage(\"too many nested expressions\")\n		return nil\n	}\n	binding = p.parseBindingPattern(decl)\n	p.exprLevel--\n	return binding", New: "	binding = p.parseBindingPattern(decl)\n	return binding", Why: "depth guard of binding patterns removed"},
